@@ -267,7 +267,7 @@ func (w *w6World) installHooks(fs *gofs.InMemoryFS) {
 // durablePrefix computes, from the FS alone, how many bytes of the global stream would survive
 // a power loss right now in the worst case (synced content only).
 func (w *w6World) durablePrefix() (int64, error) {
-	hdrs, err := ScanForFilesFromPos(w.fs, 0, w6Prefix, 0, nil)
+	hdrs, err := safeScan(w.fs)
 	if err != nil {
 		return 0, err
 	}
@@ -670,7 +670,11 @@ func (w *w6World) checkApplied(eng *w6Engine, startOff int64, wantCount int, wha
 		r.Fail("C18", "replay_missing_events", what, "%s from %d: delivered model events [%d,%d) but expected up to %d", what, startOff, first, got, wantCount)
 	}
 	if !exact && got < wantCount {
-		r.Fail("C18", "replay_lost_committed", what, "%s from %d: delivered model events [%d,%d) but %d are below the last commit", what, startOff, first, got, wantCount)
+		sig := what
+		if strings.Contains(what, "during-rotation") && !strings.Contains(what, "zeroed-header") {
+			sig = "crash" // an intact half-made chunk must not lose committed events: ordinary violation
+		}
+		r.Fail("C18", "replay_lost_committed", sig, "%s from %d: delivered model events [%d,%d) but %d are below the last commit", what, startOff, first, got, wantCount)
 	}
 }
 
@@ -793,9 +797,17 @@ func (w *w6World) afterCrash(snap []gofs.SimFile, how string) bool {
 		if len(last.Content) <= levRotateSize {
 			how = "during-rotation"
 			r.Probe("crash_image_mid_rotation")
+			if _, zeroed := cuts[last.Name]; zeroed {
+				// the half-made chunk's ROTATE_FROM is partly zero filled: its position field may
+				// read as 0 and shadow the first chunk
+				how = "during-rotation-zeroed-header"
+			}
 		}
 	}
 	r.Event("crash", "%s policy=%d files=%d", how, policy, len(files))
+	for _, f := range files {
+		r.Event("crash", "  image file %s size=%d", f.Name, len(f.Content))
+	}
 	// how many model events are guaranteed: those that end at or below the last commit
 	guaranteed := 0
 	for guaranteed < len(w.model) && w.model[guaranteed].end <= w.lastCommit {
@@ -804,7 +816,7 @@ func (w *w6World) afterCrash(snap []gofs.SimFile, how string) bool {
 	if damaged {
 		// zero-filled holes are not truncation: only the part before the first hole is compared
 		w.cmpLimit = 1
-		if hdrs, err := ScanForFilesFromPos(img, 0, w6Prefix, 0, nil); err == nil {
+		if hdrs, err := safeScan(img); err == nil {
 			lim := int64(-1)
 			for _, h := range hdrs {
 				if cut, ok := cuts[h.FileName]; ok && (lim < 0 || h.Position+int64(cut) < lim) {
@@ -882,8 +894,19 @@ func (w *w6World) afterCrash(snap []gofs.SimFile, how string) bool {
 	return true
 }
 
+// safeScan is ScanForFilesFromPos with a recover: on a chunk file shorter than 4 bytes the
+// repository's header reader indexes out of range (part of the recorded rotation finding).
+func safeScan(fs *gofs.InMemoryFS) (hdrs []FileHeader, err error) {
+	defer func() {
+		if p := recover(); p != nil {
+			err = fmt.Errorf("PANIC in ScanForFilesFromPos: %v", p)
+		}
+	}()
+	return ScanForFilesFromPos(fs, 0, w6Prefix, 0, nil)
+}
+
 func imageEnd(fs *gofs.InMemoryFS) int64 {
-	hdrs, err := ScanForFilesFromPos(fs, 0, w6Prefix, 0, nil)
+	hdrs, err := safeScan(fs)
 	if err != nil || len(hdrs) == 0 {
 		return 0
 	}
@@ -901,7 +924,7 @@ func imageEnd(fs *gofs.InMemoryFS) int64 {
 
 // repairTail truncates the last file so that it ends exactly at the replayed position.
 func (w *w6World) repairTail(fs *gofs.InMemoryFS, pos int64) {
-	hdrs, err := ScanForFilesFromPos(fs, 0, w6Prefix, 0, nil)
+	hdrs, err := safeScan(fs)
 	if err != nil || len(hdrs) == 0 {
 		return
 	}
@@ -939,7 +962,7 @@ func (w *w6World) bitflipCheck(files []gofs.SimImageFile, ref *w6Engine) {
 		cp[i] = gofs.SimImageFile{Name: f.Name, Perm: f.Perm, Content: append([]byte(nil), f.Content...)}
 	}
 	img := gofs.NewMemoryFsFromImage(cp)
-	hdrs, err := ScanForFilesFromPos(img, 0, w6Prefix, 0, nil)
+	hdrs, err := safeScan(img)
 	if err != nil {
 		return
 	}
